@@ -15,6 +15,7 @@ import (
 	"github.com/yuin/goldmark/ast"
 	"github.com/yuin/goldmark/parser"
 	"github.com/yuin/goldmark/renderer"
+	"github.com/yuin/goldmark/renderer/html"
 	"github.com/yuin/goldmark/text"
 	"github.com/yuin/goldmark/util"
 	"pgregory.net/rapid"
@@ -25,7 +26,7 @@ import (
 func TestMain(m *testing.M) {
 	kit.Register("priority", priorityOracle)
 	kit.Register("unrendered", unrenderedOracle)
-	kit.Describe("priority: case = (list of probe components in registration order: block parsers with trigger '@' (no built-in), '#' (shared with the ATX heading parser at 600) or none; inline parsers with trigger '@' or '*' (shared with emphasis at 500); paragraph transformers; AST transformers; node renderers for a probe kind and for Emphasis (built-in renderer at 1000); each with a distinct priority, an accept/decline (or detach) behaviour and one of four registration channels: WithParserOptions/WithRendererOptions, WithExtensions, Parser().AddOptions/Renderer().AddOptions after New, a second extender) and a document of crafted lines (after a blank line, or directly after an open paragraph line where only parsers that can interrupt a paragraph take part, on a first byte some or no parser is triggered by); oracle: the invocation log and the output equal those of a priority-sorted reference dispatch (triggered parsers ascending, then trigger-less ascending, first acceptor wins; transformers ascending, a detaching paragraph transformer ends the chain; the renderer with the smallest priority value wins) and are identical for the canonical sorted single-channel registration of the same set. unrendered: a tree with a node of a kind nobody renders, or of a kind created after the renderer was first used, renders without error and its children are rendered. non-trivial = at least two probes compete for a trigger/kind with a built-in between them in priority and the registration order is not already sorted; distinct by hash of the case",
+	kit.Describe("priority: case = (list of probe components in registration order: block parsers with trigger '@' (no built-in), '#' (shared with the ATX heading parser at 600) or none; inline parsers with trigger '@' or '*' (shared with emphasis at 500); paragraph transformers; AST transformers; node renderers for a probe kind and for Emphasis (built-in renderer at 1000); each with a distinct priority, an accept/decline (or detach) behaviour and one of four registration channels: WithParserOptions/WithRendererOptions, WithExtensions, Parser().AddOptions/Renderer().AddOptions after New, a second extender; or all through caller-owned option lists with spare capacity shared with two decoy sibling instances whose components must never be invoked) and a document of crafted lines (after a blank line, or directly after an open paragraph line where only parsers that can interrupt a paragraph take part, on a first byte some or no parser is triggered by); oracle: the invocation log and the output equal those of a priority-sorted reference dispatch (triggered parsers ascending, then trigger-less ascending, first acceptor wins; transformers ascending, a detaching paragraph transformer ends the chain; the renderer with the smallest priority value wins) and are identical for the canonical sorted single-channel registration of the same set. unrendered: a tree with a node of a kind nobody renders, or of a kind created after the renderer was first used, renders without error and its children are rendered. non-trivial = at least two probes compete for a trigger/kind with a built-in between them in priority and the registration order is not already sorted; distinct by hash of the case",
 		"built-in priorities as documented in parser.DefaultBlockParsers/DefaultInlineParsers and the html renderer (verified by a self-test)")
 	kit.Main(m, "C20")
 }
@@ -233,6 +234,34 @@ func build(cs []comp) goldmark.Markdown {
 	return md
 }
 
+// buildShared registers the built-in lists through caller-owned slices that have spare capacity and are
+// handed to three objects (a decoy before, the instance under test, a decoy after - all before first use):
+// objects configured from the same option values must stay independent of each other, so only the
+// instance's own components may ever be invoked.
+func buildShared(cs []comp) goldmark.Markdown {
+	bp := append(make([]util.PrioritizedValue, 0, 64), parser.DefaultBlockParsers()...)
+	ip := append(make([]util.PrioritizedValue, 0, 64), parser.DefaultInlineParsers()...)
+	pt := append(make([]util.PrioritizedValue, 0, 64), parser.DefaultParagraphTransformers()...)
+	nr := append(make([]util.PrioritizedValue, 0, 64), util.Prioritized(html.NewRenderer(), 1000))
+	mk := func(cs []comp) goldmark.Markdown {
+		po := append([]parser.Option{parser.WithBlockParsers(bp...), parser.WithInlineParsers(ip...), parser.WithParagraphTransformers(pt...)}, parserOpts(cs)...)
+		ro := append([]renderer.Option{renderer.WithNodeRenderers(nr...)}, rendererOpts(cs)...)
+		return goldmark.New(goldmark.WithParser(parser.NewParser(po...)), goldmark.WithRenderer(renderer.NewRenderer(ro...)))
+	}
+	decoy := func(tag string, base int) []comp {
+		return []comp{
+			{typ: "bp", name: tag + "b1", prio: base, trigger: "@", accept: true}, {typ: "bp", name: tag + "b2", prio: base + 1, trigger: "-", accept: true},
+			{typ: "bp", name: tag + "b3", prio: base + 2, trigger: "#", accept: true}, {typ: "ip", name: tag + "i1", prio: base + 3, trigger: "@", accept: true},
+			{typ: "ip", name: tag + "i2", prio: base + 4, trigger: "*", accept: true}, {typ: "pt", name: tag + "p1", prio: base + 5, trigger: "-", accept: true},
+			{typ: "at", name: tag + "a1", prio: base + 6, trigger: "-"}, {typ: "nr", name: tag + "r1", prio: base + 7, trigger: "em"}, {typ: "nr", name: tag + "r2", prio: base + 8, trigger: "probe"},
+		}
+	}
+	_ = mk(decoy("decoyA", -7777771))
+	md := mk(cs)
+	_ = mk(decoy("decoyB", -8888881))
+	return md
+}
+
 func runDoc(md goldmark.Markdown, doc []byte) (string, []string, error) {
 	callLog = nil
 	var b bytes.Buffer
@@ -299,6 +328,8 @@ var docLines = map[string]string{
 	"para":   "para text\n",
 	"inl@":   "para a @ b\n",
 	"inl*":   "para a *x* b\n",
+	"inlu@":  "para a\xe2@ b\n",   // a truncated multi-byte sequence right in front of the trigger byte
+	"inlu*":  "para a\xc3*x* b\n", // (the trigger is still a byte of its own and must be dispatched)
 	"plain":  "plain\n",
 	"defhr":  "[foo]: /url\n---\n",
 	"pint%":  "plain\n% probe line\n", // a crafted line directly after an open paragraph, first byte nobody is triggered by
@@ -336,7 +367,11 @@ func priorityOracle(c *kit.Case) error {
 		doc = append(doc, docLines[k]...)
 		doc = append(doc, '\n')
 	}
-	out, log, err := runDoc(build(cs), doc)
+	mk := build
+	if c.Ints["shared"] != 0 {
+		mk = buildShared
+	}
+	out, log, err := runDoc(mk(cs), doc)
 	if err != nil {
 		return kit.Violf("error", "Convert returned %v", err)
 	}
@@ -495,8 +530,13 @@ func priorityOracle(c *kit.Case) error {
 			} else {
 				wantOut.WriteString("<hr>\n")
 			}
-		case "para", "plain", "inl@", "inl*":
+		case "para", "plain", "inl@", "inl*", "inlu@", "inlu*":
 			line := strings.TrimSuffix(docLines[k], "\n")
+			pre := "para a "
+			if strings.HasPrefix(k, "inlu") {
+				pre = map[string]string{"inlu@": "para a\xe2", "inlu*": "para a\xc3"}[k]
+				k = "inl" + k[4:]
+			}
 			detached := false
 			if k != "plain" {
 				var calls []string
@@ -521,7 +561,7 @@ func priorityOracle(c *kit.Case) error {
 					inlineLogs = append(inlineLogs, "ip:"+n)
 				}
 				if iw != nil {
-					wantOut.WriteString("<p>para a " + renderProbe(iw.name, true) + " b</p>\n")
+					wantOut.WriteString("<p>" + pre + renderProbe(iw.name, true) + " b</p>\n")
 				} else {
 					wantOut.WriteString("<p>" + line + "</p>\n")
 				}
@@ -545,9 +585,9 @@ func priorityOracle(c *kit.Case) error {
 				}
 				switch {
 				case segs[0] == "*" && segs[1] == "*":
-					wantOut.WriteString("<p>para a " + emOpen + "x" + emClose + " b</p>\n")
+					wantOut.WriteString("<p>" + pre + emOpen + "x" + emClose + " b</p>\n")
 				default:
-					wantOut.WriteString("<p>para a " + segs[0] + "x" + segs[1] + " b</p>\n")
+					wantOut.WriteString("<p>" + pre + segs[0] + "x" + segs[1] + " b</p>\n")
 				}
 			default:
 				wantOut.WriteString("<p>" + line + "</p>\n")
@@ -708,9 +748,13 @@ func TestPriority(t *testing.T) {
 		nk := rapid.IntRange(2, 6).Draw(t, "nlines")
 		var keys []string
 		for i := 0; i < nk; i++ {
-			keys = append(keys, rapid.SampledFrom([]string{"at", "hvalid", "hbad", "para", "inl@", "inl*", "plain", "defhr", "pint%", "pint@"}).Draw(t, "line"))
+			keys = append(keys, rapid.SampledFrom([]string{"at", "hvalid", "hbad", "para", "inl@", "inl*", "plain", "defhr", "pint%", "pint@", "inlu@", "inlu*"}).Draw(t, "line"))
 		}
 		c := kit.NewCase("priority", "").S("spec", strings.Join(parts, " ")).S("doc", strings.Join(keys, " "))
+		if rapid.IntRange(0, 4).Draw(t, "shared") == 0 {
+			c.I("shared", 1)
+			kit.R.Class("shared-option-lists-with-sibling-instances")
+		}
 		lastNontrivial = false
 		if kit.Check(t, c) {
 			kit.R.Class("priority-configurations")
